@@ -557,8 +557,80 @@ def c06(ctx):
                   "balance and rc <= 9 (abort unreachable)")
 
 
+def c17(ctx):
+    q = ctx.quick()
+    # the Makefile's defaults: all three options OFF
+    r = subprocess.run(["make", "-C", vlib.REPO, "-pn", "static"], stdout=subprocess.PIPE, stderr=subprocess.DEVNULL, text=True)
+    for opt in ("RFC6531_FOLLOW_RFC5322", "RFC6531_FOLLOW_RFC20", "LABELS_ALLOW_UNDERSCORE"):
+        vals = [l for l in r.stdout.splitlines() if l.startswith(opt + " =") or l.startswith(opt + " :=")]
+        ctx.cov["evaluations"] += 1
+        ctx.cov["distinct_nontrivial"] += 1
+        if not vals or any(not v.rstrip().endswith("OFF") for v in vals):
+            add_violation(ctx, "C17", "option is not OFF by default", {"option": opt, "make_db": vals})
+    b0 = build(ctx, "default", 0)
+    if any(("-D" + o) in b0["make_log"] for o in ("RFC6531_FOLLOW_RFC5322", "RFC6531_FOLLOW_RFC20", "LABELS_ALLOW_UNDERSCORE")):
+        add_violation(ctx, "C17", "default build compiles with an option defined", {"log": b0["make_log"][-500:]})
+    # each option alone, then the combinations: the spec is instantiated with the same options as the build
+    plan = [(1, [("local", 2, 5 if q else 6), ("email", 2, 0)]),
+            (2, [("local", 5, 4 if q else 5), ("local", 6, 5 if q else 6), ("local", 2, 5), ("email", 2, 0)]),
+            (4, [("host", 2, 0), ("host", 1, 5 if q else 7), ("email", 2, 0)]),
+            (3, [("local", 5, 4), ("local", 2, 4 if q else 5)]),
+            (5, [("local", 2, 4), ("host", 1, 4 if q else 6)]),
+            (6, [("local", 5, 4), ("host", 1, 4 if q else 6)]),
+            (7, [("local", 5, 4), ("local", 2, 4), ("host", 2, 0), ("email", 2, 0)])]
+    for ob, suites in plan:
+        for kind, a, l in suites:
+            if kind == "local":
+                suite_local(ctx, a, l, optbits=ob)
+            elif kind == "host":
+                suite_host(ctx, a, l, optbits=ob)
+            else:
+                suite_email(ctx, a, l, optbits=ob)
+    return finish(ctx, "model_checking",
+                  "the spec's option record o = [rfc20, f5322, us] is instantiated like the build (8 combinations through the repository "
+                  "Makefile); TLC enumerates local parts / host names / addresses under o and pins what the options document (mode 6531 "
+                  "only for the two RFC6531_* options, host names for the underscore option, everything else as in the default build); "
+                  "each vector replayed on the matching build; Makefile defaults read from make -pn")
+
+
+def c18(ctx):
+    q = ctx.quick()
+    # every backend source set compiles through the repository Makefile (partial/idn and partial/idnkit against thin adapters)
+    for be in ("idn2", "idn", "idnkit"):
+        b = build(ctx, "default", 0, be)
+        warn = [l for l in b["make_log"].splitlines() if "warning:" in l or "error:" in l]
+        ctx.cov["evaluations"] += 1
+        ctx.cov["distinct_nontrivial"] += 1
+        if warn:
+            ctx.cov.setdefault("build_warnings", {})[be] = warn[:10]
+    r_pool = tlc_ok(ctx, "MC_Email", cfg({"MaxLen": 0, "Gen": 2, "OptBits": 0}))
+    r_e = tlc_ok(ctx, "MC_Email", cfg({"MaxLen": 4 if q else 5, "Gen": 1, "OptBits": 0}))
+    r_t2 = tlc_ok(ctx, "MC_Tld", cfg({"Part": 2, "RowMod": 8, "RowRem": 0}))
+    r_t1 = tlc_ok(ctx, "MC_Tld", cfg({"Part": 1, "RowMod": 16 if q else 4, "RowRem": ctx.seed % 4}))
+    r_p = tlc_ok(ctx, "MC_Policy", "CONSTANTS\n  Part = 1\nINIT Init\nNEXT Next\nINVARIANT Inv\nCHECK_DEADLOCK FALSE\n")
+    for be in ("idn", "idnkit"):
+        b = build(ctx, "default", 0, be)
+        for tag, r in (("pool", r_pool), ("email", r_e), ("tld2", r_t2), ("tld1", r_t1), ("policy", r_p)):
+            res = replay(ctx, b, r["out"], "c18-%s-%s" % (tag, be))
+            crash_violation(ctx, res, ["C06", "C18"])
+            for v in res["viol"]:
+                add_violation(ctx, "C18", "backend %s: %s %s" % (be, v["kind"], v["what"]),
+                              {"in": v["in"], "text": vlib.bytes_to_text(v["in"]), "mode": v["mode"], "expected": v["exp"], "got": v["got"]})
+            n, bad = validate_trace(ctx, "Trace_Func", res["drift_path"]) if os.path.exists(res["drift_path"]) else (0, [])
+            for (ln, ev, note) in bad:
+                add_violation(ctx, "C18", "backend %s: outcome does not follow from the converter's answer" % be,
+                              {"in": ev["in"], "text": vlib.bytes_to_text(ev["in"]), "rc": ev["rc"], "mode": ev.get("mode")})
+        # all call histories, with converter faults, on this backend: outcomes + create/destroy balance
+        suite_object(ctx, 5 if q else 6, faults=True, small=True, backend=be, graph=True)
+    return finish(ctx, "model_checking",
+                  "the three partial/<backend> source sets built through the repository Makefile (idn, idnkit against thin adapters over "
+                  "the same converter); the address / TLD / reserved / policy vectors and all object histories of length L (with converter "
+                  "faults) replayed on each; TLC checks the object model with CONSTANT Backend for context balance (ctx in {0,1}, released "
+                  "exactly once by a later ASCII eav_setup or eav_free); adapter counters observed after every history")
+
+
 def c19(ctx):
-    suite_object(ctx, 3 if ctx.quick() else 4, faults=True, small=ctx.quick())
+    suite_object(ctx, 5 if ctx.quick() else 6, faults=True, small=ctx.quick())
     return finish(ctx, "fault_enumeration",
                   "every libidn2 return code (31) injected at every conversion call of every history (TLC state graph with the converter as "
                   "nondeterministic environment); histories of MaxHist calls with a fault plan replayed with the converter replaced at link "
@@ -610,7 +682,7 @@ def c03(ctx):
 
 
 PROPS = {"C01": c01, "C02": c02, "C03": c03, "C04": c04, "C05": c05, "C07": c07, "C08": c08, "C09": c09,
-         "C06": c06, "C12": c12, "C13": c13, "C15": c15, "C16": c16, "C19": c19}
+         "C06": c06, "C12": c12, "C13": c13, "C15": c15, "C16": c16, "C17": c17, "C18": c18, "C19": c19}
 
 
 def replay_file(ctx, path):
